@@ -13,7 +13,7 @@ PLAN = {"quick": {"runs": 16000, "wall_s": 90}, "thorough": {"runs": 400000, "wa
 RULE = ("Each run: a chain of 1-4 map / flat_map steps in executor form (with_map / with_flat_map over sync or a thread pool) or "
         "f_* form (f_map / f_flat_map over an input completed by another thread, or already done), with fn / error_fn scripted "
         "per step: return, raise new, re-raise the same object, return a future in any state (done, failed, cancelled, pending and "
-        "completed later by a third thread), return a non-future, or omitted; an optional cancel() of the output racing the input's "
+        "completed later by a third thread, or one whose value is itself a future), return a non-future, or omitted; an input whose value is a future; an optional cancel() of the output racing the input's "
         "completion; for pure map chains the composed function is evaluated in the same run. Non-trivial = a pre-emption and an "
         "input (or inner future) completed by another thread.")
 ASSUMPTIONS = ["an inner future that ends cancelled makes the output cancelled (either cancelled or failed would satisfy C03)"]
@@ -25,7 +25,8 @@ def family(sig):
 
 FN_MAP = [None, "wrap", "wrap", "raise"]
 ERR_MAP = [None, None, "wrap", "reraise", "raise", "none"]
-FN_FLAT = [None, "done", "done", "failed", "cancelled", "pending-val", "pending-exc", "nonfuture", "raise"]
+FN_FLAT = [None, "done", "done", "failed", "cancelled", "pending-val", "pending-exc", "nonfuture", "raise",
+           "nested-val", "nested-exc", "nested-pending"]   # nested: the returned future's *value* is itself a future
 ERR_FLAT = [None, None, "done", "reraise"]
 
 
@@ -39,10 +40,12 @@ def gen(rng, tier):
             steps.append({"kind": kind, "fn": rng.choice(FN_MAP), "err": rng.choice(ERR_MAP)})
         else:
             steps.append({"kind": kind, "fn": rng.choice(FN_FLAT), "err": rng.choice(ERR_FLAT)})
-    spec = {"form": form, "steps": steps, "input": rng.choice(["val", "val", "val", "exc", "exc", "exc-falsy"]),
+    spec = {"form": form, "steps": steps, "input": rng.choice(["val", "val", "val", "exc", "exc", "exc-falsy", "val-future"]),
             "input_at": rng.choice([None, 0, 0.05, 0.1]) if form == "f" else rng.choice([0, 0.05]),
             "base": rng.choice(["sync", "pool"]), "inner_at": rng.choice([0.02, 0.1]),
-            "cancel_at": rng.choice([None, None, None, 0, 0.05, 0.1, "fn-running", "fn-running"]), "settle": 5.0}
+            "cancel_at": rng.choice([None, None, None, 0, 0.05, 0.1, "fn-running", "fn-running"]), "settle": 5.0,
+            # class of the exceptions raised by fn / error_fn and inside returned futures
+            "raise_cls": rng.choice(["ScriptedError", "ScriptedError", "ScriptedError", "ErrStop", "ErrCancelled", "ErrAttr", "ErrKey"])}
     spec["sim"] = runner.draw_sim_cfg(rng, est=400)
     spec["sim"]["horizon_s"] = 5000
     return spec
@@ -52,6 +55,8 @@ def model(spec):
     """Sequential reference: returns ('val', v) | ('exc', tag) | ('typeerror',) | ('cancelled',) and
     expected call counts per step {(k,'fn'|'err'): 0|1}."""
     cur = ("val", ("in",)) if spec["input"] == "val" else ("exc", ("in",))   # exc-falsy: same, the object is merely falsy
+    if spec["input"] == "val-future":
+        cur = ("val", "<future>")      # the input's value is a (failed) future: a value like any other
     calls = {}
     for k, st in enumerate(spec["steps"]):
         flat = st["kind"] == "flat_map"
@@ -81,6 +86,8 @@ def model(spec):
                 cur = ("exc", ("inner", k))
             elif b == "nonfuture":
                 cur = ("typeerror",)
+            elif b.startswith("nested"):
+                cur = ("val", "<future>")     # one level is flattened, not two
         else:
             b = st["err"]
             if b is None:
@@ -126,13 +133,13 @@ def run(spec, env):
 
         def body(x):
             if b == "raise":
-                raise env.exc(("fn", k))
+                raise env.exc(("fn", k), spec.get("raise_cls", "ScriptedError"))
             if not flat:
                 return ("m", k, x)
             if b == "done":
                 return F.f_return(("fm", k, x))
             if b == "failed":
-                return F.f_return_error(env.exc(("inner", k)))
+                return F.f_return_error(env.exc(("inner", k), spec.get("raise_cls", "ScriptedError")))
             if b == "cancelled":
                 return F.f_return_cancelled()
             if b in ("pending-val", "pending-exc"):
@@ -140,6 +147,16 @@ def run(spec, env):
                 pend.append((inner, b, k, x))
                 env.hit("inner-created")
                 return inner
+            if b.startswith("nested"):
+                g = SpyFuture(env, "nested%d" % k)
+                if b != "nested-pending":
+                    g.set_running_or_notify_cancel()
+                    if b == "nested-val":
+                        g.set_result(("nn", k))
+                    else:
+                        g.set_exception(env.exc(("nn", k)))
+                env.objs.setdefault("nested", {})[k] = g
+                return F.f_return(g)
             return ("nf", k, x)
         return fn
 
@@ -164,7 +181,7 @@ def run(spec, env):
             if b == "reraise":
                 raise ex
             if b == "raise":
-                raise env.exc(("errfn", k))
+                raise env.exc(("errfn", k), spec.get("raise_cls", "ScriptedError"))
             if b == "wrap":
                 return ("e", k, tag)
             if b == "none":
@@ -172,10 +189,21 @@ def run(spec, env):
             return F.f_return(("fe", k, tag))
         return err
 
+    def in_value():
+        if spec["input"] != "val-future":
+            return ("in",)
+        g = SpyFuture(env, "invalue")
+        g.set_running_or_notify_cancel()
+        g.set_exception(env.exc(("invalue",)))
+        env.objs["invalue"] = g
+        return g
+
     def work():
         env.rec("work")
         if spec["input_at"]:
             sim.sleep(spec["input_at"])
+        if spec["input"] == "val-future":
+            return in_value()
         if spec["input"] != "val":
             raise env.exc(("in",), "FalsyErr" if spec["input"] == "exc-falsy" else "ScriptedError")
         return ("in",)
@@ -196,10 +224,10 @@ def run(spec, env):
         raw = SpyFuture(env, "in")
         if spec["input_at"] is None:
             raw.set_running_or_notify_cancel()
-            if spec["input"] != "val":
+            if spec["input"] not in ("val", "val-future"):
                 raw.set_exception(env.exc(("in",), "FalsyErr" if spec["input"] == "exc-falsy" else "ScriptedError"))
             else:
-                raw.set_result(("in",))
+                raw.set_result(in_value())
         out = raw
         for k, st in enumerate(spec["steps"]):
             if st["kind"] == "map":
@@ -222,10 +250,10 @@ def run(spec, env):
                 env.sleep(spec["input_at"])
             try:
                 if raw.set_running_or_notify_cancel():
-                    if spec["input"] != "val":
+                    if spec["input"] not in ("val", "val-future"):
                         raw.set_exception(env.exc(("in",), "FalsyErr" if spec["input"] == "exc-falsy" else "ScriptedError"))
                     else:
-                        raw.set_result(("in",))
+                        raw.set_result(in_value())
             except Exception as e:
                 env.rec("complete-raised", type(e).__name__)
         env.rec("input-completed")
@@ -243,7 +271,7 @@ def run(spec, env):
                         if b == "pending-val":
                             inner.set_result(("fm", k, x))
                         else:
-                            inner.set_exception(env.exc(("inner", k)))
+                            inner.set_exception(env.exc(("inner", k), spec.get("raise_cls", "ScriptedError")))
                 except Exception as e:
                     env.rec("complete-raised", type(e).__name__)
                 env.rec("inner-completed", k)
@@ -333,6 +361,11 @@ def check(spec, env):
     ok = False
     if want[0] == "val":
         ok = st[0] == "val" and _t(desc(st[1])) == _t(want[1])
+        if ok and want[1] == "<future>":
+            # the very future that was the value, not a copy and not its outcome
+            last_nested = [k for k, s_ in enumerate(spec["steps"]) if (s_["fn"] or "").startswith("nested")]
+            g = env.objs.get("nested", {}).get(last_nested[-1]) if last_nested else env.objs.get("invalue")
+            ok = st[1] is g
     elif want[0] == "exc":
         ok = st[0] == "exc" and st[1] is env.excs.get(repr(want[1]))
     elif want[0] == "typeerror":
